@@ -172,6 +172,7 @@ func (c *compactCleaner) cleanSegment(seg *segment, keyOffsets *sync.Map, hw int
 		return nil, removed, cleanupEmptySegment(cleaned, seg)
 	}
 	// Otherwise replace the old segment with the compacted one.
+	crashPoint("compact:copy-written")
 	if err = cleaned.Replace(seg); err != nil {
 		return nil, removed, err
 	}
